@@ -16,7 +16,7 @@ import (
 // {unsigned, trusted, untrusted, tampered, wrapped, relocated signature}, kind confusion
 // between endpoints, raw or compressed, checking on or off, issuer configured or not.
 
-var c10Faults = []string{"none", "version-wrong", "version-absent", "destination-wrong", "issuer-missing", "issuer-wrong", "status-missing", "statuscode-missing", "status-nonsuccess"}
+var c10Faults = []string{"none", "version-wrong", "version-absent", "destination-wrong", "issuer-missing", "issuer-wrong", "status-missing", "statuscode-missing", "status-nonsuccess", "status-nested-partiallogout-under-failure"}
 var c10Signing = []string{"trusted", "unsigned", "untrusted", "tampered", "wrapped-new-id", "wrapped-same-id", "relocated-signature", "foreign-signature"}
 var c10Kinds = []string{"LogoutRequest", "LogoutResponse", "misroute:Response-at-SLO", "misroute:request-as-response", "misroute:response-as-request", "misroute:logout-at-ACS"}
 
@@ -113,7 +113,7 @@ func logoutAdversarial(r *core.Run, prop string) {
 	} else {
 		m = world.GenLogout(t, s.IdP, s.Fed, now, mint)
 	}
-	if mint != "LogoutResponse" && (fault == "status-missing" || fault == "statuscode-missing" || fault == "status-nonsuccess") {
+	if mint != "LogoutResponse" && (fault == "status-missing" || fault == "statuscode-missing" || fault == "status-nonsuccess" || fault == "status-nested-partiallogout-under-failure") {
 		fault = "none"
 	}
 	switch fault {
@@ -133,6 +133,9 @@ func logoutAdversarial(r *core.Run, prop string) {
 		m.HasStatusCode = false
 	case "status-nonsuccess":
 		m.StatusCode = []string{"urn:oasis:names:tc:SAML:2.0:status:Requester", "urn:oasis:names:tc:SAML:2.0:status:PartialLogout", ""}[t.Int(3, "c10.status")]
+	case "status-nested-partiallogout-under-failure":
+		m.StatusCode = []string{"urn:oasis:names:tc:SAML:2.0:status:Responder", "urn:oasis:names:tc:SAML:2.0:status:Requester"}[t.Int(2, "c10.status")]
+		m.SubStatusCode = strp([]string{"urn:oasis:names:tc:SAML:2.0:status:PartialLogout", world.StatusOK}[t.Int(2, "c10.substatus")])
 	}
 	if fault != "none" {
 		r.Fault("nonconforming_idp")
@@ -354,7 +357,7 @@ func logoutAdversarial(r *core.Run, prop string) {
 		return
 	}
 	// checking on: a root signature that is present but not honoured is fatal
-	if rootSigned && !honoured && signing != "relocated-signature" && out.OK() {
+	if rootSigned && !honoured && (signing != "relocated-signature" || evil) && out.OK() {
 		r.Fail("never-downgrade", prop+"/bad-root-signature-accepted/"+signing, ctx)
 		return
 	}
@@ -391,6 +394,7 @@ func c10CheckFault(r *core.Run, prop, fault string, out world.Outcome, ctx map[s
 		"status-missing":     {{"missing", []string{"status"}}},
 		"statuscode-missing": {{"missing", []string{"statuscode"}}},
 		"status-nonsuccess":  {{"invalid", []string{"statuscode", "status"}}},
+		"status-nested-partiallogout-under-failure": {{"invalid", []string{"statuscode", "status"}}},
 	}[fault]
 	if !errMatches(out.Err, exp) {
 		ctx["class"] = world.ErrClass(out.Err)
